@@ -21,23 +21,30 @@ def run(ctx):
     rng = ctx.rng
     cases = []
     rnd = lambda n: "".join(rng.choice("0123456789") for _ in range(n))  # noqa: E731
+    from harness import gens
     for _ in range(ctx.n(600, 3000)):
-        cases.append(("generate_visa_pvv", (rng.randbytes(rng.choice((8, 16, 24))), rnd(1), rnd(4), rnd(rng.randrange(12, 25)))))
+        cases.append(("generate_visa_pvv", (gens.key(rng, rng.choice((8, 16, 24))), rnd(1), gens.digits(rng, 4), gens.digits(rng, rng.randrange(12, 25)))))
+    cases = fw.with_history(rng, cases, gens.variants_generic(rng), fraction=0.1, limit=60)
     if ctx.thorough:
         pvk, pan = rng.randbytes(16), rnd(16)
         for p in range(10000):
             cases.append(("generate_visa_pvv", (pvk, "1", "%04d" % p, pan)))
     # directed: inputs needing the second pass (fewer than 4 decimal nibbles)
-    found = 0
-    for _ in range(ctx.n(40000, 400000)):
-        pvk, pvki, pin, pan = rng.randbytes(rng.choice((8, 16, 24))), rnd(1), rnd(4), rnd(rng.randrange(12, 25))
-        tsp = pan[len(pan) - 12:len(pan) - 1] + pvki + pin
-        r = o.E("des", pvk, o.from_nibbles([int(c) for c in tsp]))
-        if sum(1 for x in o.nibbles(r) if x < 10) < 4:
-            cases.append(("generate_visa_pvv", (pvk, pvki, pin, pan)))
-            found += 1
-            if found >= ctx.n(6, 60):
-                break
+    from cryptography.hazmat.primitives.ciphers import Cipher, algorithms, modes
+    found, tried, want, budget = 0, 0, ctx.n(60, 600), ctx.n(400000, 4000000)
+    while tried < budget and found < want:
+        pvk = rng.randbytes(rng.choice((8, 16, 24)))
+        enc = Cipher(algorithms.TripleDES(pvk), modes.ECB()).encryptor()
+        for _ in range(3000):
+            tried += 1
+            pvki, pin, pan = rnd(1), rnd(4), rnd(rng.choice((12, 13, 16, 16, 19, 24)))
+            tsp = pan[len(pan) - 12:len(pan) - 1] + pvki + pin
+            r = enc.update(o.from_nibbles([int(c) for c in tsp]))
+            if sum(1 for x in o.nibbles(r) if x < 10) < 4:
+                cases.append(("generate_visa_pvv", (pvk, pvki, pin, pan)))
+                found += 1
+                if found >= want:
+                    break
     for pvkl in (0, 7, 9, 15, 17, 25, 32):
         cases.append(("generate_visa_pvv", (rng.randbytes(pvkl), "1", "1234", "1122334455667788")))
     for pvki in ("", "11", "A", "１", " ", "+"):
